@@ -146,7 +146,7 @@ PROPS = {
         thorough=[S('flat', faults=2, fault_ops=2, twobuild=True),
                   S('sw_after_action', faults=1, fault_ops=1), S('sw_after_exit', faults=1, fault_ops=1), S('sw_before', faults=1, fault_ops=1),
                   S('hier2', faults=1, fault_ops=2, twobuild=True),
-                  S('hier2', ops=['start', 'pe:1', 'pe:2', 'pe:3', 'eq:1', 'xq'], faults=1, fault_ops=1, submits=1, guards=1, qbound=1),
+                  S('hier2', cfgs=['b', 'bc', 'b11', 'm', 'mc'], ops=['start', 'pe:1', 'eq:1', 'xq'], faults=1, fault_ops=1, submits=1, guards=1, qbound=1),
                   S('compl', ops=['start', 'pe:1', 'pe:2', 'pe:3', 'pe:4', 'eq:4', 'eq:1', 'xq'], faults=1, fault_ops=2, qbound=2, twobuild=True),
                   S('defer', ops=['start', 'pe:1', 'pe:2', 'pe:3', 'pe:4', 'pe:5'], faults=1, fault_ops=1, qbound=2, twobuild=True),
                   S('entry', faults=1, fault_ops=1, twobuild=True)],
